@@ -11,7 +11,7 @@ import (
 
 func init() {
 	register("C12", propMeta{
-		Explanation: "Types + E-GUARD + E-PROV + E-CONST + E-PANIC on common/messages and common/bridgefingerprint. O-1 one schema per message: for each of the six messages the Go type handed to json.Marshal by the encoder is the struct type the decoder unmarshals into (a *T of that T, not a pointer to a pointer, so JSON null cannot leave a nil message), and the client messages share the ClientVersion framing. O-2 success only through the validations: a nil-error return of each decoder is reachable only through the certifying edge of each validation - major version == \"1\" (proxy poll, answer), first line == ClientVersion and two parts present (client poll), Sid != \"\", Answer != \"\", Offer != \"\", NAT in the accepted set, FingerprintFromHexString err == nil, fingerprint length in {20, 32} with FingerprintFromHexString returning nothing but FingerprintFromBytes' verdict, Status != \"\", 'client match' implies Offer != \"\", not (Error == \"\" and Answer == \"\"). O-3 defaults: absent NAT maps to unknown, absent fingerprint to the default bridge fingerprint (same constant in encoder and decoder, equal to the fingerprint of the broker's built-in bridge line), unrecognised proxy type to ProxyUnknown, relay-pattern awareness is AcceptedRelayPattern != nil. O-4 no termination construct in the two packages (strings.Split(...)[0] is a table row). O-5 fields travel verbatim: every encoder stores its parameters unmodified into the message struct and every decoder returns the decoded fields unmodified apart from the documented defaults. Added after the second seeding round: O-3 DecodePollResponseWithRelayURL hands on \"unknown\" for an absent NAT type on every success return (the raw field may be returned only behind its != \"\" edge); the NAT vocabulary test may live in a same-package helper that receives the NAT field; success returns are identified by may-be-nil analysis of the error result rather than by a literal nil. Added after the third seeding round: a fixed-size buffer handed to hex.Decode is sized from the input (DecodedLen) or the input length is tested first. Added after the fourth seeding round: O-4 also covers constant indexes into strings and slices without a length-establishing edge and methods invoked on possibly-nil errors; O-6 no package-level state in the message codecs (a shared output buffer, a pooled record that is only half reset).",
+		Explanation: "Types + E-GUARD + E-PROV + E-CONST + E-PANIC on common/messages and common/bridgefingerprint. O-1 one schema per message: for each of the six messages the Go type handed to json.Marshal by the encoder is the struct type the decoder unmarshals into (a *T of that T, not a pointer to a pointer, so JSON null cannot leave a nil message), and the client messages share the ClientVersion framing. O-2 success only through the validations: a nil-error return of each decoder is reachable only through the certifying edge of each validation - major version == \"1\" (proxy poll, answer), first line == ClientVersion and two parts present (client poll), Sid != \"\", Answer != \"\", Offer != \"\", NAT in the accepted set, FingerprintFromHexString err == nil, fingerprint length in {20, 32} with FingerprintFromHexString returning nothing but FingerprintFromBytes' verdict, Status != \"\", 'client match' implies Offer != \"\", not (Error == \"\" and Answer == \"\"). O-3 defaults: absent NAT maps to unknown, absent fingerprint to the default bridge fingerprint (same constant in encoder and decoder, equal to the fingerprint of the broker's built-in bridge line), unrecognised proxy type to ProxyUnknown, relay-pattern awareness is AcceptedRelayPattern != nil. O-4 no termination construct in the two packages (strings.Split(...)[0] is a table row). O-5 fields travel verbatim: every encoder stores its parameters unmodified into the message struct and every decoder returns the decoded fields unmodified apart from the documented defaults. Added after the second seeding round: O-3 DecodePollResponseWithRelayURL hands on \"unknown\" for an absent NAT type on every success return (the raw field may be returned only behind its != \"\" edge); the NAT vocabulary test may live in a same-package helper that receives the NAT field; success returns are identified by may-be-nil analysis of the error result rather than by a literal nil. Added after the third seeding round: a fixed-size buffer handed to hex.Decode is sized from the input (DecodedLen) or the input length is tested first. Added after the fourth seeding round: O-4 also covers constant indexes into strings and slices without a length-establishing edge and methods invoked on possibly-nil errors; O-6 no package-level state in the message codecs (a shared output buffer, a pooled record that is only half reset). Added after the fifth seeding round: O-1 the encoders produce their bytes with encoding/json only (no Sprintf/%q or strconv quoting); the two-parts validation may be an index test.",
 		NotDecided:  "JSON fidelity for arbitrary strings and integer ranges (encoding/json, trusted), round-trip equality as a value-level statement.",
 		Assumptions: []string{"encoding/json round-trips exported fields of a struct type through the same struct type"},
 	}, runC12)
@@ -82,6 +82,28 @@ func runC12(c *Ctx) {
 	// encoders and decoders build every message in memory of their own: bytes handed out do not share a
 	// package-level buffer with the next message, and a decoded record does not come out of a pool half reset
 	c.checkNoSharedState("O-6 no package-level state in the message codecs", "common/messages", msgs)
+	// every encoder produces its bytes with encoding/json (Go's %q and strconv quoting are not JSON quoting: a
+	// control character in a field yields bytes the decoder rejects)
+	{
+		ruleJ := "O-1 one schema per message"
+		nEnc, bad := 0, 0
+		for _, fn := range msgs {
+			if !strings.Contains(fn.Name(), "Encode") {
+				continue
+			}
+			nEnc++
+			for _, ci := range callsIn(fn) {
+				switch n := calleeName(ci); {
+				case n == "fmt.Sprintf" || n == "fmt.Sprint" || n == "fmt.Fprintf" || strings.HasPrefix(n, "strconv.Quote") || strings.HasPrefix(n, "strconv.AppendQuote"):
+					bad++
+					c.viol(ruleJ, p.FnName(fn)+" builds its message with "+n, p.instrPos(ci), "the encoder formats JSON by hand: strings with control or non-printable characters are quoted in Go syntax, which encoding/json (the decoder) does not accept")
+				}
+			}
+		}
+		if bad == 0 {
+			c.ok(ruleJ, "encoders build their bytes with encoding/json only", "-", fmt.Sprintf("%d encoder function(s), no hand-formatted JSON", nEnc))
+		}
+	}
 
 	// ---------- O-4 ----------
 	rule4 := "O-4 no termination construct in the message codecs"
@@ -265,6 +287,31 @@ func (c *Ctx) checkDecoderValidations() {
 			cc, _, okc := callResult(a.X)
 			return ok && k == 2 && okc && calleeName(cc) == "builtin.len"
 		})
+		// or: the position of the first newline was found (IndexByte/Index >= 0, != -1), or Cut's found flag
+		isIdx := func(v ssa.Value) bool {
+			cc, _, okc := callResult(v)
+			if !okc {
+				return false
+			}
+			switch calleeName(cc) {
+			case "bytes.IndexByte", "bytes.Index", "bytes.IndexRune", "strings.IndexByte", "strings.Index":
+				return true
+			}
+			return false
+		}
+		two = append(two, cmpEdges(fn, ">=", isIdx, func(v ssa.Value) bool { k, ok := constInt(v); return ok && k == 0 })...)
+		two = append(two, cmpEdges(fn, ">", isIdx, func(v ssa.Value) bool { k, ok := constInt(v); return ok && k == -1 })...)
+		two = append(two, condEdges(fn, false, func(a Atom) bool {
+			if a.Op != token.EQL {
+				return false
+			}
+			k, ok := constInt(a.Y)
+			return ok && k == -1 && isIdx(a.X)
+		})...)
+		two = append(two, boolEdges(fn, true, func(v ssa.Value) bool {
+			cc, i, okc := callResult(v)
+			return okc && (calleeName(cc) == "bytes.Cut" || calleeName(cc) == "strings.Cut") && i == 2
+		})...)
 		require(fn, "version line and body both present", two)
 		var fh *ssa.Call
 		for _, ci := range callsTo(fn, "common/bridgefingerprint.FingerprintFromHexString") {
@@ -507,6 +554,12 @@ func (c *Ctx) checkMessageDefaults() {
 			a, pos := normCond(retVal(r, 5))
 			if a.Op == token.EQL && !pos {
 				okAware = isARP(a.X) && isNilConst(a.Y)
+			} else if ph, isPhi := retVal(r, 5).(*ssa.Phi); isPhi && phiOfCompareAndErrorPaths(ph, func(v ssa.Value) bool {
+				a2, pos2 := normCond(v)
+				return a2.Op == token.EQL && !pos2 && isARP(a2.X) && isNilConst(a2.Y)
+			}) {
+				// the comparison itself on the success path, merged with placeholders of the error paths
+				okAware = true
 			} else if ph, isPhi := retVal(r, 5).(*ssa.Phi); isPhi {
 				// a flag set on the two edges of the nil test: true exactly behind != nil, false exactly behind == nil
 				present := nilCheckEdges(fn, false, isARP)
@@ -537,4 +590,58 @@ func (c *Ctx) checkMessageDefaults() {
 		}
 		c.check(okAware, rule, "relay-pattern awareness is AcceptedRelayPattern != nil", p.Pos(fn.Pos()), "", "the 'supports relay pattern' flag is not derived from the presence of the field")
 	}
+}
+
+// phiOfCompareAndErrorPaths: every incoming value of ph is either a value
+// satisfying isCmp, or a constant that arrives over an edge on which an error
+// phi of the same block receives a value that cannot be nil (the results of a
+// flattened helper: placeholders on its error returns, the real value on its
+// success return).
+func phiOfCompareAndErrorPaths(ph *ssa.Phi, isCmp func(ssa.Value) bool) bool {
+	var errPhis []*ssa.Phi
+	for _, in := range ph.Block().Instrs {
+		p2, ok := in.(*ssa.Phi)
+		if !ok {
+			break
+		}
+		if p2.Type().String() == "error" {
+			errPhis = append(errPhis, p2)
+		}
+	}
+	sawCmp := false
+	for i, e := range ph.Edges {
+		if isCmp(e) {
+			sawCmp = true
+			continue
+		}
+		if _, isC := e.(*ssa.Const); !isC {
+			if p3, isPhi := e.(*ssa.Phi); isPhi && phiOfCompareAndErrorPaths(p3, isCmp) {
+				sawCmp = true
+				continue
+			}
+			return false
+		}
+		onErr := false
+		for _, ep := range errPhis {
+			if i >= len(ep.Edges) {
+				continue
+			}
+			ev := ep.Edges[i]
+			if definitelyNonNil(ev) {
+				onErr = true
+				continue
+			}
+			// an error value that was tested: the edge is taken only behind "ev != nil"
+			fn := ph.Parent()
+			nonNil := nilCheckEdges(fn, false, func(w ssa.Value) bool { return w == ev })
+			pred := ph.Block().Preds[i]
+			if len(nonNil) > 0 && len(pred.Instrs) > 0 && reachableWithout(fn, pred.Instrs[len(pred.Instrs)-1], nonNil) == nil {
+				onErr = true
+			}
+		}
+		if !onErr {
+			return false
+		}
+	}
+	return sawCmp
 }
